@@ -103,6 +103,14 @@ class World(object):
         self.version = version
         self.use_jsonclass = use_jsonclass
         self.config = jsonrpclib.config.Config(version=version, use_jsonclass=use_jsonclass)
+        # "<dispatch>+handlers": serialisation handlers for built-in types are configured (they rewrite result values
+        # - floats rounded, strings upper-cased, integers shifted - and must touch nothing else of a response)
+        self.handlers = dispatch.endswith("+handlers")
+        dispatch = dispatch.split("+")[0]
+        if self.handlers:
+            self.config.serialize_handlers[float] = lambda o, sm, ia, ig, cfg: round(o, 1)
+            self.config.serialize_handlers[str] = lambda o, sm, ia, ig, cfg: o.upper()
+            self.config.serialize_handlers[int] = lambda o, sm, ia, ig, cfg: o + 1000
         self.dispatch = dispatch
         if dispatcher_factory is not None:
             self.d = dispatcher_factory(self.config)
@@ -161,6 +169,12 @@ class World(object):
             log.append(("retfault", [], {}))
             return Fault(-32001, "app-fault", data={"d": 1})
 
+        def sysexit():
+            # a callable that raises something outside the Exception hierarchy
+            log.append(("sysexit", [], {}))
+            raise SystemExit("exit-text")
+
+        reg("sysexit", sysexit)
         reg("retfault", retfault)
         reg("f", f)
         reg("pair", pair)
@@ -296,7 +310,7 @@ def expect_entry(world, e):
         try:
             val = fn(*args, **kwargs)
             outcome = ("ret", val)
-        except Exception as ex:  # noqa
+        except (Exception, SystemExit) as ex:  # noqa
             outcome = ("exc", ex)
     finally:
         probe = world.log[len(saved):]
@@ -517,7 +531,7 @@ def evaluate_body(world, body, rfc_ok=None):
     reply = None
     try:
         reply = world.run(body)
-    except Exception as ex:
+    except (Exception, SystemExit) as ex:
         raised = ex
     got_log = sanitize(list(world.log))
     if body == "":
